@@ -72,6 +72,17 @@ func (e *verifFlightEnv) fn(r *verifCallRec, gated bool) func() (any, error) {
 	}
 }
 
+// settle waits for quiescence; natively (where a yield is a short sleep) it
+// keeps waiting until cond holds, for a bounded time.
+func verifSettle(cond func() bool) {
+	verifYield()
+	for i := 0; i < 40 && !cond(); i++ {
+		verifYield()
+	}
+}
+
+func (r *verifCallRec) isBack() bool { return atomic.LoadInt64(&r.returned) > 0 }
+
 func verifNewFlightEnv() *verifFlightEnv {
 	return &verifFlightEnv{running: map[string]int{}, execBy: map[int64]*verifCallRec{}, gate: make(chan struct{}), entered: make(chan struct{})}
 }
@@ -129,13 +140,14 @@ func Verif_C18_singleflight() {
 		} else {
 			r.val, r.err = g.Do(r.key, e.fn(r, gated))
 		}
-		r.returned = e.tick()
+		atomic.StoreInt64(&r.returned, e.tick())
 	}
 	wg.Add(2)
 	go do(a, true)
 	if startB == 3 {
 		go do(b, true)
-		verifYield() // both have come to rest: inside the function or waiting for the other
+		verifSettle(func() bool { return sameKey || atomic.LoadInt64(&e.execs) == 2 }) // both have come to rest: inside the function or waiting for the other
+		verifYield()
 		if sameKey {
 			verifAssert(e.execs == 1, "of two calls arriving together for one key exactly one executes while the other waits")
 			verifReach("together")
@@ -149,7 +161,11 @@ func Verif_C18_singleflight() {
 		close(e.gate)
 	case 0:
 		go do(b, false)
-		verifYield() // B has joined A's flight (same key) or finished (other key)
+		if sameKey {
+			verifYield() // B has joined A's flight
+		} else {
+			verifSettle(b.isBack) // B has finished
+		}
 		if sameKey {
 			verifAssert(b.returned == 0 && b.executed == 0, "a call arriving during an execution for its key waits for it instead of executing")
 		} else {
@@ -161,7 +177,7 @@ func Verif_C18_singleflight() {
 		close(e.gate)
 	case 2:
 		close(e.gate)
-		verifYield()
+		verifSettle(a.isBack)
 		verifAssert(a.returned > 0, "A returns once its function does")
 		go do(b, false)
 	}
@@ -211,12 +227,13 @@ func Verif_C18_lockedcalls() {
 		defer wg.Done()
 		r.invoked = e.tick()
 		r.val, r.err = g.Do(r.key, e.fn(r, gated))
-		r.returned = e.tick()
+		atomic.StoreInt64(&r.returned, e.tick())
 	}
 	wg.Add(2)
 	go do(a, true)
 	if startB == 2 {
 		go do(b, true)
+		verifSettle(func() bool { return sameKey || atomic.LoadInt64(&e.execs) == 2 })
 		verifYield()
 		if sameKey {
 			verifAssert(e.execs == 1, "of two calls arriving together for one key one executes while the other waits")
@@ -230,7 +247,11 @@ func Verif_C18_lockedcalls() {
 		go do(b, false)
 	}
 	if startB == 0 {
-		verifYield()
+		if sameKey {
+			verifYield()
+		} else {
+			verifSettle(b.isBack)
+		}
 		if sameKey {
 			verifAssert(b.executed == 0 && b.returned == 0, "a call for a key that is executing waits")
 			verifReach("waited")
